@@ -62,6 +62,13 @@ class C20(Prop):
         for j in range(4 if n < 1000 else 12):
             kind, name = (tm + om)[(7 * j) % len(tm + om)]
             cases.append({"id": n + j, "levels": [[], [[name, kinds[kind]]]], "start": 1, "filler": 3000})
+        # very deep start paths: a marker 35-60 levels above the start directory is still found
+        for j, depth in enumerate((36, 48, 61)):
+            kind, name = (tm + om)[(5 * j + 1) % len(tm + om)]
+            levels = [[] for _ in range(depth)]
+            levels[0] = [[name, kinds[kind]]]
+            levels[depth // 2] = [[(tm + om)[(3 * j) % len(tm + om)][1], kinds[(tm + om)[(3 * j) % len(tm + om)][0]]]]
+            cases.append({"id": len(cases) + 10000, "levels": levels, "start": depth - 1})
         return cases
 
     def correspond(self, tier, seed, deep=False):
